@@ -21,7 +21,7 @@ ASSUMPTIONS = [
 ]
 BUDGET = {
     "quick": dict(cases=1200, shards=4, timeout=600),
-    "thorough": dict(cases=6000, shards=16, timeout=3000),
+    "thorough": dict(cases=16000, shards=16, timeout=3000),
 }
 FLOORS = {
     "quick": {
@@ -33,7 +33,7 @@ FLOORS = {
     },
     "thorough": {
         "events": {"edit_distance": 50000, "prefix_edit_distances": 50000},
-        "classes": {c: 1000 for c in G.CLASSES},
+        "classes": dict({c: 1000 for c in G.CLASSES}, exhaustive2=46128),
         "distinct": 30000,
     },
 }
@@ -60,19 +60,19 @@ def enumerate_cases(tier):
         return
     seqs = [list(s) for L in range(0, 5) for s in itertools.product([1, 2], repeat=L)]
     costs = [[1.0, 1.0, 1.0], [0.5, 1.5, 1.0], [1.0, 0.5, 3.0]]
-    k = 0
     for ref in seqs:
         for hyp in seqs:
             R, H = 4, 4
             r = ref + ([0] + [1] * (R - len(ref) - 1) if len(ref) < R else [])
             h = hyp + ([0] + [2] * (H - len(hyp) - 1) if len(hyp) < H else [])
-            k += 1
-            yield {
-                "class": "exhaustive2", "ref": [r], "hyp": [h], "eos": 0,
-                "include_eos": bool(k & 1), "norm": bool(k & 2), "batch_first": bool(k & 4),
-                "exclude_last": bool(k & 8), "costs": costs[k % 3], "padding": -100,
-                "form": "functional", "R": R, "H": H,
-            }
+            for k in range(16):
+                for c in costs:
+                    yield {
+                        "class": "exhaustive2", "ref": [r], "hyp": [h], "eos": 0,
+                        "include_eos": bool(k & 1), "norm": bool(k & 2), "batch_first": bool(k & 4),
+                        "exclude_last": bool(k & 8), "costs": c, "padding": -100,
+                        "form": "functional", "R": R, "H": H,
+                    }
 
 
 def _call(mon, case, which, ref, hyp, **over):
